@@ -13,6 +13,15 @@ void Normalizer::Normalize(SyntaxTree::Node& root) {
     isInitialized = true;
     CollectLocalNames(root);
   }
+  Normalize(root, 1);
+}
+
+void Normalizer::Normalize(SyntaxTree::Node& root, const int32_t depth) {
+  if (depth > MAX_TREE_DEPTH) {
+    // Note: the rest of the tree is not normalized - result should not be evaluated
+    isTooDeep = true;
+    return;
+  }
   switch (root.token.id) {
   default: break;
   case TokenID::FORALL:
@@ -34,13 +43,13 @@ void Normalizer::Normalize(SyntaxTree::Node& root) {
     break;
   }
   case TokenID::NT_FUNC_CALL: {
-    Function(root);
+    Function(root, depth);
     break;
   }
   }
 
   for (Index child = 0; child < root.ChildrenCount(); ++child) {
-    Normalize(root(child));
+    Normalize(root(child), depth + 1);
   }
 }
 
@@ -261,7 +270,7 @@ void Normalizer::SubstituteTupleVariables(SyntaxTree::Node& target, const Index 
   }
 }
 
-void Normalizer::Function(SyntaxTree::Node& func) {
+void Normalizer::Function(SyntaxTree::Node& func, const int32_t depth) {
   nodeSubstitutes.clear();
   nameSubstitutes.clear();
   
@@ -274,7 +283,7 @@ void Normalizer::Function(SyntaxTree::Node& func) {
     SyntaxTree newTree = *funcTree;
     SubstituteArgs(newTree.root->At(1).At(1), func.token.pos);
     func = newTree.root->At(1).At(1);
-    Normalize(func);
+    Normalize(func, depth);
   }
 }
 
